@@ -827,6 +827,14 @@ func (in *inst) probes() []event {
 			}
 		}
 	}
+	shapeTarget := -1
+	for k := 0; k < nDIDs; k++ {
+		if i := (in.nAcc + k) % nDIDs; shapeTarget < 0 {
+			if _, _, ok := in.signerFor(i); ok {
+				shapeTarget = i
+			}
+		}
+	}
 	for i := 0; i < nDIDs; i++ {
 		// (a) authorisation: every (kid DID, key) pair x prevs mode x signing time; the signer adds its own key
 		for kd := 0; kd < nDIDs; kd++ {
@@ -854,9 +862,14 @@ func (in *inst) probes() []event {
 				}
 			}
 		}
-		// (b) well-formedness: an authorised signer (if the model knows one) with every document variant
+		// (b) well-formedness: an authorised signer (if the model knows one) with every document variant. Quick: the
+		// document-shape product goes to ONE DID per state (the first DID, counted from the number of accepted events, that
+		// has an authorised signer), thorough: to every DID in every state.
 		if kd, key, ok := in.signerFor(i); ok {
 			for _, d := range docVariants(i) {
+				if d.Shape != nil && !shapeFull && i != shapeTarget {
+					continue
+				}
 				out = append(out, event{Kind: "update", Doc: d, SignKey: key, KidDID: kd, Prevs: "latest", Sigt: "now"})
 			}
 		}
@@ -977,6 +990,9 @@ func signerClass(m *model, e event) string {
 	for _, c := range v.Doc.Ctrl {
 		if c == t {
 			continue
+		}
+		if n := len(m.versions[c]); n > 0 && m.dead(c) && !m.versions[c][n-1].deactivated() && m.versions[c][n-1].capInv()[e.SignKey] {
+			return "key-of-deactivated-then-re-created-controller"
 		}
 		if n := len(m.versions[c]); n > 0 && inList(m.versions[c][n-1].Doc.CapInv, e.SignKey) && !m.versions[c][n-1].deactivated() && !m.active(c, 1) {
 			return "key-of-controller-without-active-controller"
@@ -1249,7 +1265,7 @@ func TestVerifC09(t *testing.T) {
 		"with every one of 4 embedded keys and with every defective document, updates of every DID signed by every (kid DID, key) pair x prevs {latest, previous, first, unrelated} " +
 		"x signing time {now, one hour before everything}, and an authorised signer with every document variant (10 valid templates; 12 whole-document defects, one per validator rule, incl. a JWK whose kid member repeats a non-thumbprint fragment and a method without JWK; and for every entry kind - verificationMethod entry, method embedded in each relationship, service - the well-formed id and 12 malformed ids: DID of another known / an unknown DID, document DID + extra characters / path / query / param / colon segment, upper-cased id, empty fragment, fragment only, two '#', no fragment; embedded methods also with non-thumbprint fragments); " +
 		"document-shape alphabet (shape.go): {relationship} x {method embedded once / twice, before / after the references; absolute, relative, unlisted and other-DID references; additional verificationMethod entries before / after the template's} x {(id stands for key a, publicKeyJwk holds key b)} over key kinds {own listed key, fresh key, key of another DID, OKP key}, on a host that references its key from capabilityInvocation and on one whose only capability invocation entries are the embedded ones; " +
-		"building events also: re-creation (the DID published once more as a creation by the original key, also after its deactivation) and three well-formed embedded-method shapes for DID 0; update probes also with prevs that differ between the target and the other DIDs; " +
+		"building events also: re-creation (the DID published once more as a creation by the original key, also after its deactivation) and two (thorough: three) well-formed embedded-method shapes for DID 0; quick offers the shape product as updates of one DID per state (rotating) and as creations of DIDs that do not exist yet, thorough of every DID in every state; update probes also with prevs that differ between the target and the other DIDs; " +
 		"after every accepted event every stored version must keep method id == thumbprint of the method's own key, and a deactivated DID must stay deactivated; " +
 		"a case = (history, offered event)")
 	r.Assume("signature verification of the DAG is not part of the callback: the harness signs with the key that the kid names, so the signature is valid whenever the kid resolves")
